@@ -572,6 +572,7 @@ def step (d : DS) (ws0 : List String) : DS × String :=
       | .panic => (d, "panic")
     | none => (d, "bad-op")
   | "!trace" :: rest => (d, Spec.Cluster.Wire.judgeLine rest)
+  | ["!sticky", prev, fresh, pf, tg, nf] => (d, Spec.Cluster.Trace.stickyVerdict prev (fresh == "1") pf tg nf)
   | ["sf-enter", c] =>
     match c.toNat? with
     | some c =>
